@@ -8,7 +8,7 @@ from pyvc.engine import Fact
 from pyvc.registry import add_refinements
 from contracts.c_tasks import TASK
 from contracts.c_taskgraph import TaskList, graph_complete_spec
-from contracts.c_handlers import closure, TGC, SLOWEST
+from contracts.c_handlers import closure, TGC, SLOWEST, TGD
 
 # pairs that cannot be compared this way, with the reason (reported in the evidence as assumptions that stay)
 NOT_COMPARABLE = {
@@ -33,6 +33,7 @@ def _def_cancel(c):
 DEFS = {
     "workload.tasks.TaskGraph.cancel": _def_cancel,
     "workload.tasks.TaskGraph.is_complete": lambda c: [Fact("def.taskgraph_is_complete", TGC(c.pre.fld_arr(TASK, "_state")[2], c.arg("self")) == graph_complete_spec(c.pre, c.arg("self")))],
+    "workload.tasks.TaskGraph.deadline": lambda c: [Fact("def.taskgraph_deadline", TGD(c.arg("self")) == (c.res.z if hasattr(c.res, "z") else c.res))],
     "workload.strategy.ExecutionStrategies.get_slowest_strategy": lambda c: [Fact("def.slowest_strategy", SLOWEST(c.arg("self")) == c.res.z if hasattr(c.res, "z") else SLOWEST(c.arg("self")) == c.res)],
 }
 
